@@ -343,11 +343,14 @@ package cache
 
 // deleteExpired(before): removes exactly the entries that expired before the boundary; never-expiring entries
 // (E == 0) and everything else survive unchanged (C11). The clause is taken from the property statement.
+// The same obligations serve C07: the reference map with per-entry expiry keeps every entry that is not expired,
+// so a background sweep that removed anything else would make Read, Len and Walk disagree with it.
 
 //@ def longExpired(e, boundary) := e.E != 0 && e.E < boundary
 
 //@ func (*shardedMap).deleteExpired
 //@   props C11 C08 C16
+//@   flag serves C07
 //@   requires repOK(c)
 //@   requires abs(before) < 4611686018427387904
 //@   ensures [C11.exact] forall h uint64 :: hasH(c, h) == (old(hasH(c, h)) && !longExpired(old(ent(c, h)), before))
@@ -529,6 +532,7 @@ package cache
 
 //@ func (*syncMap).deleteExpired
 //@   props C11
+//@   flag serves C07
 //@   requires sRepOK(c)
 //@   requires abs(before) < 4611686018427387904
 //@   ensures [C11.sm.exact] forall s string :: sHas(c, s) == (old(sHas(c, s)) && !longExpired(old(sEnt(c, s)), before))
@@ -997,6 +1001,8 @@ package cache
 // calls that reported success; on a deleter failure the unprocessed keys are put back - without panicking.
 // A key is marked as done (and thereby excluded from the put-back) only after every deleter has processed it:
 // while the deleters of a key are being called the key is not marked (C15.inv.notyet).
+// Every store into a label map only extends the key list that is there at that moment (C15.putback.keeps): the
+// put-back runs after other goroutines had the chance to label more keys, and those must stay indexed.
 
 //@ func (*InvalidationIndex).invalidateByLabels
 //@   modifies M|map[string][]string|* E|string|* G|cnt|Deleter.Delete G|delok
@@ -1010,7 +1016,23 @@ package cache
 //@   loop 2 invariant [C15.inv.l2] cnt == delok() - old(delok()) && cnt >= 0 && cutKeys != nil && deleted != nil
 //@   loop 3 invariant [C15.inv.l3] cnt == delok() - old(delok()) && cnt >= 0 && cutKeys != nil && deleted != nil
 //@   loop 3 invariant [C15.inv.notyet] !deleted[k]
+//@   mapstore map[string][]string [C15.putback.keeps] len(value) >= len(prev) && (forall m int :: 0 <= m && m < len(prev) ==> value[m] == prev[m])
 //@   replay invalidate
+
+// The deferred put-back: for every label that is still cut, the keys not marked as done are filtered in place
+// (kept shares the backing store of keys) and appended to the list the index holds for the label at that moment.
+// Loop 2 is the filter; atloop(2, keys[j]) is the j-th key of the cut list before the filter started to overwrite it.
+// At the end of every iteration of loop 1 (one label) every key of the cut list that is not marked as done is in
+// the list the index holds for that label (C15.putback.each).
+//@ func (*InvalidationIndex).invalidateByLabels$1
+//@   inline
+//@   props C15
+//@   loop 1 afterbody [C15.putback.each] forall j int :: 0 <= j && j < len(keys) && !(*deleted)[atloop(2, keys[j])] ==>
+//@       (exists m int :: 0 <= m && m < len((*labeledKeys)[label]) && (*labeledKeys)[label][m] == atloop(2, keys[j]))
+//@   loop 2 invariant [C15.filter.alias] samestart(kept, keys) && cap(kept) == cap(keys) && 0 <= len(kept) && len(kept) <= rangeindex + 1 && *deleted != nil
+//@   loop 2 invariant [C15.filter.rest] forall j int :: rangeindex < j && j < len(keys) ==> keys[j] == atloop(2, keys[j])
+//@   loop 2 invariant [C15.filter.kept] forall j int :: 0 <= j && j <= rangeindex && !(*deleted)[atloop(2, keys[j])] ==>
+//@       (exists m int :: 0 <= m && m < len(kept) && kept[m] == atloop(2, keys[j]))
 
 // Well-formedness of the label index: inner label maps and registered deleters are non-nil.
 //@ def indexOK(i) := i.labeledKeysByName != nil && i.deleters != nil
@@ -1026,6 +1048,7 @@ package cache
 //@   props C15 C16 C09
 //@   requires indexOK(i)
 //@   ensures [C15.addlabels.map] has(i.labeledKeysByName, cacheName) && i.labeledKeysByName[cacheName] != nil
+//@   mapstore map[string][]string [C15.addlabels.keeps] len(value) >= len(prev) && (forall m int :: 0 <= m && m < len(prev) ==> value[m] == prev[m])
 //@   loop 1 invariant [C15.addlabels.inv] labeledKeys != nil && has(i.labeledKeysByName, cacheName) && i.labeledKeysByName[cacheName] == labeledKeys
 
 // InvalidateByLabels: snapshot of the index under the mutex, then one invalidateByLabels per cache name; the total
